@@ -182,6 +182,16 @@ def check(ctx):
     B.must_raise("G6", disp, "non-numeric fill value through interp center->inner (zero-width stencil)", lambda: full_dispatch(P, "interp", "center", "inner", kwargs={"fill_value": "abc"}))
     B.must_raise("G5", cums, "unknown boundary word through cumsum center->right (zero width)", lambda: _cumsum_real_pad(P, "center", "right", boundary="bogus"))
     B.must_return("G5", cums, "valid: cumsum center->right with boundary 'extend'", lambda: _cumsum_real_pad(P, "center", "right", boundary="extend"))
+    # ---- G11 malformed data arguments
+    cdi = P.func("grid_ufunc:_check_data_input")
+    ev2 = Evaluator(P)
+    da_ = make_da("da", [dimsym("AX", "center")])
+    for name, data in (("vector dictionary with two entries", {AX: da_, AY: da_}), ("vector dictionary for an unknown axis", {Sym("NOPE"): da_}),
+                       ("vector dictionary whose value is not an array", {AX: 3.0}), ("data that is neither an array nor a dictionary", [1, 2, 3]), ("empty vector dictionary", {})):
+        B.must_raise("G11", cdi, name, lambda data=data: ev2.run_paths(cdi, lambda: dict(data=data, grid=make_grid(("AX", "AY")))))
+    B.must_return("G11", cdi, "valid: single-entry vector dictionary", lambda: ev2.run_paths(cdi, lambda: dict(data={AX: da_}, grid=make_grid(("AX", "AY")))))
+    B.must_return("G11", cdi, "valid: plain array", lambda: ev2.run_paths(cdi, lambda: dict(data=da_, grid=make_grid(("AX", "AY")))))
+    B.must_raise("G11", disp, "dispatch on a two-entry vector dictionary", lambda: _dispatch_bad_data(P))
     # ---- G7-G9 transform
     _transform(ctx, P, B)
     # ---- G10 grid ufunc positions / numbers
@@ -303,3 +313,13 @@ def _bad_axis_transform(P, tfi):
     ev = Evaluator(P, models={"warnings.warn": lambda ev, a, k, n: None}, attr_models=da_attr_models(), method_models=da_method_models())
     return ev.run_paths(tfi, lambda: dict(grid=make_grid(("AZ",), boundary="fill"), axis_name=Sym("NOPE"), da=make_da("da", [dimsym("AZ", "center")]), target=make_da("t", [Sym("lev")]),
                                           target_data=None, target_dim=None, method="linear", mask_edges=True, bypass_checks=False, suffix="_t"))
+
+
+def _dispatch_bad_data(P):
+    from ..harness import dispatch_models
+
+    ev = Evaluator(P, models=dispatch_models(), attr_models=da_attr_models(), method_models=da_method_models(), assume_false=("Dask_Array", ".chunks", "_is_dim_chunked"))
+    fi = P.func("grid:Grid._1d_grid_ufunc_dispatch")
+    da_ = make_da("da", [dimsym("AX", "left"), dimsym("AY", "center")])
+    return ev.run_paths(fi, lambda: dict(self=make_grid(("AX", "AY")), funcname="diff", data={AX: da_, AY: da_}, axis=AX, to="center", keep_coords=False, metric_weighted=None,
+                                         other_component=None, kwargs={}))
